@@ -311,6 +311,8 @@ def run(ctx):
     if not use_lean:
         ctx.notes.append("Lean driver not available: only the direct oracle (Python reference of the spec) ran")
     run_corpus(ctx)
+    from corr import C04_default
+    C04_default.run(ctx)       # plain data + the real default_resolver
 
 
 def flush_lean(ctx, lean_cases):
@@ -354,6 +356,9 @@ def run_corpus(ctx):
 
 def replay(ctx, data, quiet=False):
     inp = data.get("input", data)
+    if "root" in inp:
+        from corr import C04_default
+        return C04_default.replay(ctx, inp)
     schema, holder, dump = X.build(inp["sdl"], inp.get("enum_kind", 0))
     c = Case()
     c.sdl, c.enum_kind = inp["sdl"], inp.get("enum_kind", 0)
